@@ -520,6 +520,8 @@ pub fn gen_reads(rng: &mut Rng, stream_len: usize, ends: &[usize], cfg: &LinkCfg
 pub struct WriteCfg {
     pub short_pm: u64,
     pub pending_pm: u64,
+    /// the write half stalls for a while of simulated time (async only)
+    pub stall_pm: u64,
 }
 
 impl WriteCfg {
@@ -527,12 +529,14 @@ impl WriteCfg {
         WriteCfg {
             short_pm: 0,
             pending_pm: 0,
+            stall_pm: 0,
         }
     }
     pub fn swarm(rng: &mut Rng) -> Self {
         WriteCfg {
             short_pm: if rng.chance(3, 4) { rng.range(50, 900) } else { 0 },
             pending_pm: if rng.chance(1, 2) { rng.range(50, 500) } else { 0 },
+            stall_pm: if rng.chance(1, 4) { rng.range(20, 300) } else { 0 },
         }
     }
 }
@@ -545,6 +549,15 @@ pub fn gen_writes(rng: &mut Rng, n: usize, cfg: &WriteCfg) -> Vec<WriteEv> {
             for _ in 0..rng.small(3) {
                 evs.push(WriteEv::Pending);
             }
+        }
+        if cfg.stall_pm > 0 && rng.chance(cfg.stall_pm, 1000) {
+            // a peer that stops reading for a while: from a blink to well over any grace period
+            evs.push(WriteEv::Stall(match rng.below(4) {
+                0 => rng.range(1, 500),
+                1 => rng.range(500, 9_000),
+                2 => rng.range(9_000, 29_000),
+                _ => rng.range(29_000, 200_000),
+            }));
         }
         if cfg.short_pm > 0 && rng.chance(cfg.short_pm, 1000) {
             match rng.below(5) {
